@@ -254,10 +254,12 @@ let hist t a bs parts =
            if !go then begin
              let (sx, _) = parse_sexp (tokenize o) in
              (* the operation goes to the innermost container reached through the last fields of the value *)
-             let (nb, out) = match tail_container t (clean !cur) with
-               | Some (_, TFlex (_, _)) -> nested_flex_op pv t a (fop_of sx) !cur
-               | Some _ -> nested_vec_op pv t (vop_of sx) !cur
-               | None -> (!cur, OBad) in
+             let (nb, out) = match tail_container t (clean !cur), sx with
+               | Some (_, TFlex (_, _)), Lst [Atom "editflex"; Atom n; o] ->
+                 nested_flex_edit_flex pv t a (num_of_string n) (fop_of o) !cur
+               | Some (_, TFlex (_, _)), _ -> nested_flex_op pv t a (fop_of sx) !cur
+               | Some _, _ -> nested_vec_op pv t (vop_of sx) !cur
+               | None, _ -> (!cur, OBad) in
              cur := nb;
              Buffer.add_string b (" | res=" ^ oout_s out);
              Buffer.add_string b (hist_obs t a nb);
@@ -326,7 +328,9 @@ let io_op t kind args =
     let stream = bytes_of_hex stream in
     let script = List.map rdir_of (script_toks rscript) in
     let nrecv = int_of_string nrecv in
-    let capn = io_capacity (min_size t) (n_of_int (int_of_string mml)) in
+    (* `c<n>`: a receiver over IoBuffer::new(pipe, n, ALIGN); otherwise Receiver::io(pipe, max_msg_len) *)
+    let capn = if mml.[0] = 'c' then n_of_int (int_of_string (tl1 mml))
+      else io_capacity (min_size t) (n_of_int (int_of_string mml)) in
     let limit = nlen stream + nlen script + 2 * nrecv + 16 in
     let b = new_buffer capn N0 in
     let s = { stream = stream; rscript = script; rcalls = N0 } in
